@@ -41,6 +41,7 @@ def lits (g : GOracle) (j : Json) : Json := Id.run do
     let mut note := ""
     let mut n := 0
     let mut key := ""
+    let mut otherFail := ""   -- first specification failure that is not of the known class
     for (l, impl) in items do
       n := n + 1
       let c := classify l
@@ -74,9 +75,11 @@ def lits (g : GOracle) (j : Json) : Json := Id.run do
           let want := (if l.headD 0 == 96 then "ident:" else "str:") ++ J.toHex b
           if impl != want then
             spec := false; note := s!"literal {J.toHex l} denotes {J.toHex b} but parsed as {impl}"
+            if otherFail == "" then otherFail := s!"lit:{J.toHex l}"
         | none =>
           if impl.startsWith "str:" || impl.startsWith "ident:" then
             spec := false; note := s!"malformed literal {J.toHex l} accepted as {impl}"
+            if otherFail == "" then otherFail := s!"lit:{J.toHex l}"
       else
         let (neg, body) := match l with | 45 :: r => (true, r) | 43 :: r => (false, r) | r => (false, r)
         match canonInt body with
@@ -85,16 +88,25 @@ def lits (g : GOracle) (j : Json) : Json := Id.run do
             let want := "int:" ++ (if neg then (if v == 0 then "0" else "-" ++ toString v) else toString v)
             if impl != want then
               spec := false; note := s!"integer literal {bstr l} parsed as {impl}"
+              if otherFail == "" then otherFail := s!"lit:{bstr l}"
           else if !(impl.startsWith "float:") then do
             spec := false
             note := s!"integer literal beyond int64 {bstr l} parsed as {impl}"
             -- class key: all hexadecimal spellings beyond int64 fail the same way
             let isHex := match body with | 48 :: x :: _ => x == 120 || x == 88 | _ => false
-            if key == "" then key := (if isHex then "lit:hex-integer-beyond-int64" else s!"lit:{bstr body}")
+            if isHex then
+              if key == "" then key := "lit:hex-integer-beyond-int64"
+            else
+              if otherFail == "" then otherFail := s!"lit:{bstr body}"
         | none =>
           match kwSpec l with
-          | some want => if impl != want then spec := false; note := s!"keyword {bstr l} parsed as {impl}"
+          | some want =>
+            if impl != want then
+              spec := false; note := s!"keyword {bstr l} parsed as {impl}"
+              if otherFail == "" then otherFail := s!"lit:{bstr l}"
           | none => pure ()
-    return J.obj [("id", J.get j "id"), ("agree", agree), ("spec", spec), ("n", n), ("note", note), ("key", key)]
+    -- a batch is reported under the known class only when every failure in it is of that class
+    let key' := if otherFail != "" then otherFail else if !agree then "lit:disagreement" else key
+    return J.obj [("id", J.get j "id"), ("agree", agree), ("spec", spec), ("n", n), ("note", note), ("key", key')]
 
 end DrvLit
